@@ -29,7 +29,7 @@ const (
 	fFlag                 // ReturnErrOnFailedRuleEvaluation may be set
 	fListen               // 0, 1 or 2 listeners (default: 1)
 	fTwoEff               // two effects per action instead of one
-	fSalEq                // (unused) reserved
+	fActErr               // actions may fail (error / panic) while conditions stay plain booleans
 )
 
 const (
@@ -173,8 +173,17 @@ func (w *vaWorld) whenStub(e *ast.WhenScope, dc ast.IDataContext, wm *ast.Workin
 	case outError:
 		return reflect.Value{}, errors.New("stub condition error")
 	}
-	panic("stub condition panic")
+	// a user method may panic with any value
+	switch verif.Choice("panic-value", 3) {
+	case 0:
+		panic("stub condition panic")
+	case 1:
+		panic(errors.New("stub condition panic (error value)"))
+	}
+	panic(vaPanicValue{code: 42})
 }
+
+type vaPanicValue struct{ code int }
 
 func (w *vaWorld) thenStub(e *ast.ThenScope, dc ast.IDataContext, wm *ast.WorkingMemory) error {
 	r := w.thenIdx[e]
@@ -206,7 +215,7 @@ func (w *vaWorld) thenStub(e *ast.ThenScope, dc ast.IDataContext, wm *ast.Workin
 	}
 	w.events[idx].flipped = w.maybeCancel()
 	res := 0
-	if w.feat&fErr != 0 {
+	if w.feat&(fErr|fActErr) != 0 {
 		res = verif.Choice("then-result", 3)
 	}
 	w.events[idx].out = res
@@ -214,7 +223,13 @@ func (w *vaWorld) thenStub(e *ast.ThenScope, dc ast.IDataContext, wm *ast.Workin
 	case 1:
 		return errors.New("stub action error")
 	case 2:
-		panic("stub action panic")
+		switch verif.Choice("panic-value", 3) {
+		case 0:
+			panic("stub action panic")
+		case 1:
+			panic(errors.New("stub action panic (error value)"))
+		}
+		panic(vaPanicValue{code: 7})
 	}
 	return nil
 }
